@@ -176,3 +176,49 @@ func (m *Map) Clear() {
 	m.m, m.keys = nil, nil
 	S.yield()
 }
+
+// ContextAfterFunc models context.AfterFunc: f runs on its own goroutine once ctx is done, unless
+// stop was called first.
+func ContextAfterFunc(ctx context.Context, f func()) (stop func() bool) {
+	stopped, started := false, false
+	Go(func() {
+		recvAny(S, ctx.Done())
+		if stopped {
+			return
+		}
+		started = true
+		f()
+	})
+	return func() bool {
+		if started || stopped {
+			return false
+		}
+		stopped = true
+		return true
+	}
+}
+
+// OnceFunc, OnceValue and OnceValues model the sync helpers of the same names.
+func OnceFunc(f func()) func() {
+	var o Once
+	return func() { o.Do(f) }
+}
+
+func OnceValue[T any](f func() T) func() T {
+	var o Once
+	var v T
+	return func() T {
+		o.Do(func() { v = f() })
+		return v
+	}
+}
+
+func OnceValues[T1, T2 any](f func() (T1, T2)) func() (T1, T2) {
+	var o Once
+	var v1 T1
+	var v2 T2
+	return func() (T1, T2) {
+		o.Do(func() { v1, v2 = f() })
+		return v1, v2
+	}
+}
